@@ -7,6 +7,7 @@ import (
 	"fmt"
 	"mime"
 	"net/http"
+	"net/url"
 	"path"
 	"strconv"
 	"strings"
@@ -725,7 +726,7 @@ func (b *backend) Put(w http.ResponseWriter, r *http.Request) error {
 		w.Header().Set("Last-Modified", co.ModTime.UTC().Format(http.TimeFormat))
 	}
 	if co.Path != "" {
-		w.Header().Set("Location", co.Path)
+		w.Header().Set("Location", (&url.URL{Path: co.Path}).String())
 	}
 
 	// TODO: http.StatusNoContent if the resource already existed
